@@ -1621,7 +1621,7 @@ def grid_operators(tier):
     ops = ["+", "-", "*", "/", "%", "**", "<<", ">>", ">>>", "&", "|", "^", "==", "!=", "===", "!==", "<", ">", "<=", ">="]
     for op in ops:
         for lc in cls:
-            if tier == "quick" and op not in ("+", "<", "==", "-", ">=") and lc not in ("objVS", "objP", "sym", "str", "nz"):
+            if tier == "quick" and op not in ("+", "<", "==") and lc not in ("objVS", "objP", "sym"):
                 continue
             stmts = []
             for rc in cls:
